@@ -133,12 +133,21 @@ impl Tables {
              /-- `GREYS` of src/encoder.rs -/\ndef greys : List Int := [{greys}]\n\n\
              /-- linear-light value of the sRGB byte `v`, `v = 0 … 255` (`LinColor::from(RGBA::new(v, v, v, 255))`) -/\n\
              def lin : List Int := [{lin}]\n\n\
+             /-- the decoder's view of the 256-colour palette (src/decoder.rs `COLORS`, `CUBE`, `GREYS`, sRGB bytes; hook\n\
+             `decoder::verif_c06::palette_tables`): how a reported `48;5;N` is turned back into a colour -/\n\
+             def decNamed : List (Nat × Nat × Nat) := [{dn}]\n\ndef decCube : List Nat := [{dc}]\n\ndef decGreys : List Nat := [{dg}]\n\n\
              def cubeBits : List Nat := [{cb}]\n\ndef greysBits : List Nat := [{gb}]\n\ndef linBits : List Nat := [{lb}]\n\n\
              end SurfModel.Generated.ColorTables\n",
             k = self.k,
             cube = self.ints(&self.cube),
             greys = self.ints(&self.greys),
             lin = self.ints(&self.lin),
+            dn = {
+                let (named, _, _) = surf_n_term::decoder::verif_c06::palette_tables();
+                named.iter().map(|c| { let [r, g, b] = c.to_rgb(); format!("({r}, {g}, {b})") }).collect::<Vec<_>>().join(", ")
+            },
+            dc = surf_n_term::decoder::verif_c06::palette_tables().1.iter().map(|v| v.to_string()).collect::<Vec<_>>().join(", "),
+            dg = surf_n_term::decoder::verif_c06::palette_tables().2.iter().map(|v| v.to_string()).collect::<Vec<_>>().join(", "),
             cb = bits(&self.cube),
             gb = bits(&self.greys),
             lb = bits(&self.lin),
@@ -394,6 +403,23 @@ impl Enc {
     }
 }
 
+/// commands of one glue session: every colour in the three roles (FaceModify), every pair through Face
+fn glue_cmds(colours: &[[u8; 3]], pairs: &[(usize, usize)]) -> Vec<TerminalCommand> {
+    let rgba = |c: [u8; 3]| RGBA::new(c[0], c[1], c[2], 255);
+    let mut cmds: Vec<TerminalCommand> = Vec::new();
+    for c in colours {
+        for role in 0..3 {
+            cmds.push(role_cmd(rgba(*c), role));
+        }
+    }
+    for (f, b) in pairs {
+        if let (Some(f), Some(b)) = (colours.get(*f), colours.get(*b)) {
+            cmds.push(TerminalCommand::Face(Face::new(Some(rgba(*f)), Some(rgba(*b)), FaceAttrs::EMPTY)));
+        }
+    }
+    cmds
+}
+
 fn role_cmd(c: RGBA, role: usize) -> TerminalCommand {
     let fm = match role {
         0 => FaceModify { fg: Some(c), ..FaceModify::default() },
@@ -405,10 +431,11 @@ fn role_cmd(c: RGBA, role: usize) -> TerminalCommand {
 
 /// Terminal glue: the real terminal object (`SystemTerminal::new_from_fd`) on a pseudo terminal.  The encoder
 /// that writes the colours lives inside the terminal and is configured by `capabilities_detect` from the
-/// environment (`TERM`, `COLORTERM`) and from the answers of the terminal emulator; `capabilities().depth` is
-/// what the library reports.  A peer thread plays the emulator: it answers DA1 (`ESC [ c`) and, if the session
-/// asks for it, the true-colour probe (DECRQSS `ESC P $ q m ESC \\`).  Timing never produces a failure:
-/// a session whose output does not arrive is inconclusive.
+/// environment (`TERM`, `COLORTERM`, the `SURFNTERM` override) and from the answers of the terminal emulator;
+/// `capabilities().depth` is what the library reports.  A peer thread plays the emulator (`Emu`): it tracks
+/// SGR, answers DA1 and — depending on the kind — DECRQSS.  Sessions with a `SURFNTERM` value run in a child
+/// process (the variable is read once per process).  Timing never produces a failure: a session whose output
+/// does not arrive is inconclusive.
 mod glue {
     use std::io::Write;
     use std::os::fd::{FromRawFd, OwnedFd, RawFd};
@@ -423,31 +450,69 @@ mod glue {
     const SEP: &[u8] = b"\x1e";
     const END: &[u8] = b"\x1dE";
 
-    #[derive(Clone, Copy)]
-    pub struct Plan {
-        pub name: &'static str,
-        pub term: &'static str,
-        pub colorterm: Option<&'static str>,
-        /// the emulator confirms the true-colour probe
-        pub answer_truecolor: bool,
+    /// what the terminal emulator on the master side can do
+    #[derive(Clone, Copy, PartialEq, Debug)]
+    pub enum Emu {
+        /// answers DA1 only (no DECRQSS): the library cannot learn anything about colours
+        Plain,
+        /// true-colour terminal: keeps direct colours as they are, answers DECRQSS with `48:2::r:g:b`
+        Direct,
+        /// 256-colour terminal that accepts `38;2` / `48;2` but maps them to the closest entry of its palette
+        /// (plain sRGB distance over 16..=255, whatever the colour is), answers DECRQSS with `48;5;N`
+        Palette256,
     }
 
-    pub const PLANS: [Plan; 5] = [
-        Plan { name: "TERM=dumb", term: "dumb", colorterm: None, answer_truecolor: false },
-        Plan { name: "TERM=linux", term: "linux", colorterm: None, answer_truecolor: false },
-        Plan { name: "TERM=xterm-256color", term: "xterm-256color", colorterm: None, answer_truecolor: false },
-        Plan { name: "TERM=xterm-256color+DECRQSS", term: "xterm-256color", colorterm: None, answer_truecolor: true },
-        Plan { name: "TERM=xterm,COLORTERM=truecolor", term: "xterm", colorterm: Some("truecolor"), answer_truecolor: false },
-    ];
+    #[derive(Clone)]
+    pub struct Plan {
+        pub name: String,
+        pub term: &'static str,
+        pub colorterm: Option<&'static str>,
+        pub emu: Emu,
+        /// value of the `SURFNTERM` variable (such sessions run in a child process)
+        pub surfnterm: Option<&'static str>,
+        /// depths under which this terminal is served correctly (empty = any): what the user configured, or what
+        /// the terminal is able to show
+        pub allowed: Vec<ColorDepth>,
+        pub why: &'static str,
+    }
+
+    pub fn plans() -> Vec<Plan> {
+        use ColorDepth::*;
+        let p = |name: &str, term, colorterm, emu, surfnterm, allowed: &[ColorDepth], why| Plan {
+            name: name.to_string(), term, colorterm, emu, surfnterm, allowed: allowed.to_vec(), why,
+        };
+        let grey = "TERM=dumb / TERM=linux is how the library recognises a grey-only terminal";
+        let user = "the depth the user configured through SURFNTERM is the depth to serve";
+        vec![
+            p("TERM=dumb", "dumb", None, Emu::Plain, None, &[Gray], grey),
+            p("TERM=linux", "linux", None, Emu::Plain, None, &[Gray], grey),
+            p("TERM=xterm-256color", "xterm-256color", None, Emu::Plain, None, &[], ""),
+            p("TERM=xterm-256color+DECRQSS", "xterm-256color", None, Emu::Direct, None, &[], ""),
+            p("TERM=xterm,COLORTERM=truecolor", "xterm", Some("truecolor"), Emu::Plain, None, &[], ""),
+            p("TERM=xterm-256color on a 256-colour emulator that maps direct colours to its palette", "xterm-256color", None,
+              Emu::Palette256, None, &[EightBit, Gray], "the terminal has 256 colours only: direct colours must not be sent to it"),
+            p("SURFNTERM=\"depth=gray\"", "vt220", None, Emu::Plain, Some("depth=gray"), &[Gray], user),
+            p("SURFNTERM=\"depth = gray\"", "vt220", None, Emu::Plain, Some("depth = gray"), &[Gray], user),
+            p("SURFNTERM=\"image = dummy, depth = gray\"", "vt220", None, Emu::Plain, Some("image = dummy, depth = gray"), &[Gray], user),
+            p("SURFNTERM=\" depth =  truecolor \"", "xterm", None, Emu::Plain, Some(" depth =  truecolor "), &[TrueColor], user),
+            p("SURFNTERM=\"depth= 256 ,image=dummy\" on a true-colour emulator", "xterm-256color", None, Emu::Direct,
+              Some("depth= 256 ,image=dummy"), &[EightBit], user),
+            p("SURFNTERM=\"image=dummy,depth=2\" on a true-colour emulator", "xterm-256color", None, Emu::Direct,
+              Some("image=dummy,depth=2"), &[Gray], user),
+        ]
+    }
 
     pub struct SessionOut {
         pub reported: ColorDepth,
         /// bytes put on the pty for each command, in order (`ERROR_SEGMENT` if `execute` failed)
         pub segments: Vec<Vec<u8>>,
+        /// background colours the library set with `48;2;r;g;b` while detecting capabilities (the probe)
+        pub probes: Vec<[u32; 3]>,
     }
 
     struct Shared {
         received: Mutex<Vec<u8>>,
+        probes: Mutex<Vec<[u32; 3]>>,
         stop: AtomicBool,
     }
 
@@ -483,12 +548,41 @@ mod glue {
         hay.windows(needle.len()).position(|w| w == needle)
     }
 
-    /// the terminal emulator: record everything, answer the queries
-    fn peer(master: RawFd, shared: Arc<Shared>, truecolor: bool) {
-        const DA1: &[u8] = b"\x1b[c";
-        const PROBE: &[u8] = b"\x1bP$qm\x1b\\";
+    /// background as the emulator keeps it
+    #[derive(Clone, Copy)]
+    enum Bg {
+        Default,
+        Rgb(u32, u32, u32),
+        Idx(u32),
+    }
+
+    /// closest entry 16..=255 of the xterm palette by plain sRGB distance (table written here, independent)
+    fn closest_palette(r: u32, g: u32, b: u32) -> u32 {
+        const LV: [i64; 6] = [0, 95, 135, 175, 215, 255];
+        let d = |x: [i64; 3]| (x[0] - r as i64).pow(2) + (x[1] - g as i64).pow(2) + (x[2] - b as i64).pow(2);
+        let (mut best, mut bd) = (16u32, i64::MAX);
+        for i in 0..216u32 {
+            let e = [LV[(i / 36) as usize], LV[(i / 6 % 6) as usize], LV[(i % 6) as usize]];
+            if d(e) < bd {
+                bd = d(e);
+                best = 16 + i;
+            }
+        }
+        for i in 0..24u32 {
+            let v = 8 + 10 * i as i64;
+            if d([v, v, v]) < bd {
+                bd = d([v, v, v]);
+                best = 232 + i;
+            }
+        }
+        best
+    }
+
+    /// the terminal emulator: record everything, track SGR background, answer the queries
+    fn peer(master: RawFd, shared: Arc<Shared>, emu: Emu) {
         let mut buf = vec![0u8; 1 << 14];
         let mut tail: Vec<u8> = Vec::new();
+        let mut bg = Bg::Default;
         while !shared.stop.load(Ordering::SeqCst) {
             let mut pfd = libc::pollfd { fd: master, events: libc::POLLIN, revents: 0 };
             if unsafe { libc::poll(&mut pfd, 1, 20) } <= 0 {
@@ -504,39 +598,101 @@ mod glue {
             tail.extend_from_slice(data);
             let mut replies: Vec<u8> = Vec::new();
             let mut i = 0;
-            while i < tail.len() {
-                let rest = &tail[i..];
-                if rest.starts_with(DA1) {
-                    replies.extend_from_slice(b"\x1b[?62c");
-                    i += DA1.len();
-                } else if rest.starts_with(PROBE) {
-                    if truecolor {
-                        replies.extend_from_slice(b"\x1bP1$r48:2:1:2:3m\x1b\\");
-                    }
-                    i += PROBE.len();
-                } else if rest.len() < PROBE.len() && (DA1.starts_with(rest) || PROBE.starts_with(rest)) {
-                    break; // possibly the beginning of a query
-                } else {
+            'scan: while i < tail.len() {
+                if tail[i] != 0x1b {
                     i += 1;
+                    continue;
+                }
+                if i + 1 >= tail.len() {
+                    break; // lone ESC at the end: wait for more
+                }
+                match tail[i + 1] {
+                    b'[' => {
+                        // CSI … final byte 0x40..=0x7e
+                        let mut j = i + 2;
+                        while j < tail.len() && !(0x40..=0x7e).contains(&tail[j]) {
+                            j += 1;
+                        }
+                        if j >= tail.len() {
+                            break 'scan;
+                        }
+                        let args = &tail[i + 2..j];
+                        match tail[j] {
+                            b'c' if args.is_empty() => replies.extend_from_slice(b"\x1b[?62c"),
+                            b'm' => {
+                                let ps: Vec<u32> = args
+                                    .split(|c| *c == b';')
+                                    .map(|a| std::str::from_utf8(a).ok().and_then(|a| a.parse().ok()).unwrap_or(0))
+                                    .collect();
+                                let mut k = 0;
+                                while k < ps.len() {
+                                    match ps[k] {
+                                        0 => bg = Bg::Default,
+                                        49 => bg = Bg::Default,
+                                        38 | 48 | 58 => {
+                                            let is_bg = ps[k] == 48;
+                                            if ps.get(k + 1) == Some(&2) && k + 4 < ps.len() {
+                                                let (r, g, b) = (ps[k + 2], ps[k + 3], ps[k + 4]);
+                                                if is_bg {
+                                                    shared.probes.lock().unwrap().push([r, g, b]);
+                                                    bg = match emu {
+                                                        Emu::Palette256 => Bg::Idx(closest_palette(r, g, b)),
+                                                        _ => Bg::Rgb(r, g, b),
+                                                    };
+                                                }
+                                                k += 4;
+                                            } else if ps.get(k + 1) == Some(&5) && k + 2 < ps.len() {
+                                                if is_bg {
+                                                    bg = Bg::Idx(ps[k + 2]);
+                                                }
+                                                k += 2;
+                                            }
+                                        }
+                                        40..=47 => bg = Bg::Idx(ps[k] - 40),
+                                        100..=107 => bg = Bg::Idx(ps[k] - 92),
+                                        _ => {}
+                                    }
+                                    k += 1;
+                                }
+                            }
+                            _ => {}
+                        }
+                        i = j + 1;
+                    }
+                    b'P' | b'_' | b']' => {
+                        // DCS / APC / OSC … ST
+                        let Some(e) = find(&tail[i + 2..], b"\x1b\\") else { break 'scan };
+                        let body = &tail[i + 2..i + 2 + e];
+                        if tail[i + 1] == b'P' && body == b"$qm" && emu != Emu::Plain {
+                            let sgr = match bg {
+                                Bg::Default => "0".to_string(),
+                                Bg::Rgb(r, g, b) => format!("0;48:2::{r}:{g}:{b}"),
+                                Bg::Idx(n) => format!("0;48;5;{n}"),
+                            };
+                            replies.extend_from_slice(format!("\x1bP1$r{sgr}m\x1b\\").as_bytes());
+                        }
+                        i += 2 + e + 2;
+                    }
+                    _ => i += 2,
                 }
             }
-            tail.drain(..i);
+            tail.drain(..i.min(tail.len()));
             if !replies.is_empty() {
                 unsafe { libc::write(master, replies.as_ptr() as *const libc::c_void, replies.len()) };
             }
         }
     }
 
-    /// One session: terminal constructed under `plan`, `cmds` executed, output collected per command.
-    /// `Err(why)`: the session cannot be judged (inconclusive).
+    /// One session in this process: terminal constructed under `plan`, `cmds` executed, output collected per
+    /// command.  `Err(why)`: the session cannot be judged (inconclusive).
     pub fn session(plan: &Plan, cmds: &[TerminalCommand]) -> Result<SessionOut, String> {
         let (master, slave) = open_pty()?;
         let keep = unsafe { libc::dup(slave) }; // the pty must outlive the terminal
-        let shared = Arc::new(Shared { received: Mutex::new(Vec::new()), stop: AtomicBool::new(false) });
+        let shared = Arc::new(Shared { received: Mutex::new(Vec::new()), probes: Mutex::new(Vec::new()), stop: AtomicBool::new(false) });
         let thread = {
             let shared = shared.clone();
-            let tc = plan.answer_truecolor;
-            std::thread::spawn(move || peer(master, shared, tc))
+            let emu = plan.emu;
+            std::thread::spawn(move || peer(master, shared, emu))
         };
         // the environment decides which detection path runs (process-wide: sessions run one at a time)
         unsafe {
@@ -550,6 +706,7 @@ mod glue {
             let mut term = SystemTerminal::new_from_fd(unsafe { OwnedFd::from_raw_fd(slave) })
                 .map_err(|e| format!("constructor:{e:?}"))?;
             let reported = term.capabilities().depth;
+            let probes = shared.probes.lock().unwrap().clone();
             let mut failed = vec![false; cmds.len()];
             term.write_all(START).map_err(|e| format!("write:{e:?}"))?;
             for (i, cmd) in cmds.iter().enumerate() {
@@ -581,7 +738,7 @@ mod glue {
                     segments[i] = ERROR_SEGMENT.to_vec();
                 }
             }
-            Ok(SessionOut { reported, segments })
+            Ok(SessionOut { reported, segments, probes })
         })();
         shared.stop.store(true, Ordering::SeqCst);
         let _ = thread.join();
@@ -590,6 +747,96 @@ mod glue {
             libc::close(master);
         }
         result
+    }
+
+    pub fn depth_name(d: ColorDepth) -> &'static str {
+        match d {
+            ColorDepth::EightBit => "8bit",
+            ColorDepth::Gray => "gray",
+            ColorDepth::TrueColor => "true",
+        }
+    }
+
+    /// child process (`c20 glue-child <plan index> <colours hex> <pairs>`): one session, the result as one
+    /// JSON line on stdout
+    pub fn child_main(args: &[String], cmds_of: impl Fn(&[[u8; 3]], &[(usize, usize)]) -> Vec<TerminalCommand>) {
+        let plans = plans();
+        let idx: usize = args[0].parse().unwrap_or(usize::MAX);
+        let Some(plan) = plans.get(idx) else { std::process::exit(2) };
+        let (colours, pairs) = decode_job(&args[1], &args[2]);
+        let line = match session(plan, &cmds_of(&colours, &pairs)) {
+            Ok(so) => serde_json::json!({
+                "reported": depth_name(so.reported),
+                "segments": so.segments.iter().map(|s| super::hex(s)).collect::<Vec<_>>(),
+                "probes": so.probes,
+            }),
+            Err(why) => serde_json::json!({"inconclusive": why}),
+        };
+        println!("{line}");
+    }
+
+    pub fn encode_job(colours: &[[u8; 3]], pairs: &[(usize, usize)]) -> (String, String) {
+        let c: Vec<u8> = colours.iter().flatten().cloned().collect();
+        let p = pairs.iter().map(|(a, b)| format!("{a}-{b}")).collect::<Vec<_>>().join(",");
+        (super::hex(&c), if p.is_empty() { "-".into() } else { p })
+    }
+
+    fn unhex(s: &str) -> Vec<u8> {
+        if s == "-" {
+            return Vec::new();
+        }
+        (0..s.len() / 2).filter_map(|i| u8::from_str_radix(&s[2 * i..2 * i + 2], 16).ok()).collect()
+    }
+
+    fn decode_job(c: &str, p: &str) -> (Vec<[u8; 3]>, Vec<(usize, usize)>) {
+        let colours = unhex(c).chunks(3).filter(|c| c.len() == 3).map(|c| [c[0], c[1], c[2]]).collect();
+        let pairs = if p == "-" {
+            Vec::new()
+        } else {
+            p.split(',').filter_map(|ab| ab.split_once('-')).filter_map(|(a, b)| Some((a.parse().ok()?, b.parse().ok()?))).collect()
+        };
+        (colours, pairs)
+    }
+
+    /// the same session in a child process of this binary with `SURFNTERM` set
+    pub fn session_in_child(idx: usize, plan: &Plan, colours: &[[u8; 3]], pairs: &[(usize, usize)]) -> Result<SessionOut, String> {
+        let (c, p) = encode_job(colours, pairs);
+        let mut cmd = std::process::Command::new("/proc/self/exe");
+        cmd.arg("glue-child").arg(idx.to_string()).arg(c).arg(p);
+        cmd.env("SURFNTERM", plan.surfnterm.unwrap_or(""));
+        cmd.stdin(std::process::Stdio::null()).stdout(std::process::Stdio::piped()).stderr(std::process::Stdio::null());
+        let mut child = cmd.spawn().map_err(|e| format!("child-spawn:{e}"))?;
+        let t0 = Instant::now();
+        loop {
+            match child.try_wait() {
+                Ok(Some(_)) => break,
+                Ok(None) if t0.elapsed() > Duration::from_secs(40) => {
+                    let _ = child.kill();
+                    let _ = child.wait();
+                    return Err("child-timeout".into());
+                }
+                Ok(None) => std::thread::sleep(Duration::from_millis(5)),
+                Err(e) => return Err(format!("child-wait:{e}")),
+            }
+        }
+        let out = child.wait_with_output().map_err(|e| format!("child-output:{e}"))?;
+        let text = String::from_utf8_lossy(&out.stdout);
+        let v: serde_json::Value = serde_json::from_str(text.lines().last().unwrap_or("")).map_err(|_| "child-no-answer".to_string())?;
+        if let Some(why) = v["inconclusive"].as_str() {
+            return Err(why.to_string());
+        }
+        let reported = match v["reported"].as_str() {
+            Some("8bit") => ColorDepth::EightBit,
+            Some("gray") => ColorDepth::Gray,
+            Some("true") => ColorDepth::TrueColor,
+            _ => return Err("child-no-answer".into()),
+        };
+        let segments = v["segments"].as_array().map(|a| a.iter().map(|s| unhex(s.as_str().unwrap_or("-"))).collect()).unwrap_or_default();
+        let probes = v["probes"]
+            .as_array()
+            .map(|a| a.iter().filter_map(|p| Some([p[0].as_u64()? as u32, p[1].as_u64()? as u32, p[2].as_u64()? as u32])).collect())
+            .unwrap_or_default();
+        Ok(SessionOut { reported, segments, probes })
     }
 }
 
@@ -615,6 +862,7 @@ struct Ctx {
     drift: f64,
     glue: Option<(String, String)>,
     glue_sessions: u64,
+    probes_seen: HashSet<[u32; 3]>,
     glue_inconclusive: u64,
     glue_commands: u64,
     n_colors: u64,
@@ -663,25 +911,21 @@ impl Ctx {
     /// roles through `FaceModify`, every pair through `Face`.  The bytes the terminal puts on the pty are judged
     /// and compared with the model exactly like the output of a stand-alone encoder of the depth the terminal
     /// REPORTS (`capabilities().depth`).
-    fn glue_session(&mut self, plan: &glue::Plan, colours: &[[u8; 3]], pairs: &[(usize, usize)]) {
+    fn glue_session(&mut self, idx: usize, plan: &glue::Plan, colours: &[[u8; 3]], pairs: &[(usize, usize)]) {
         let rgba = |c: [u8; 3]| RGBA::new(c[0], c[1], c[2], 255);
-        let mut cmds: Vec<TerminalCommand> = Vec::new();
-        for c in colours {
-            for role in 0..3 {
-                cmds.push(role_cmd(rgba(*c), role));
-            }
-        }
-        for (f, b) in pairs {
-            cmds.push(TerminalCommand::Face(Face::new(Some(rgba(colours[*f])), Some(rgba(colours[*b])), FaceAttrs::EMPTY)));
-        }
+        let cmds = glue_cmds(colours, pairs);
+        let run = |plan: &glue::Plan| match plan.surfnterm {
+            Some(_) => glue::session_in_child(idx, plan, colours, pairs),
+            None => glue::session(plan, &cmds),
+        };
         // a session that cannot be judged is run again on its own; only if that fails too it is inconclusive
-        let mut res = glue::session(plan, &cmds);
+        let mut res = run(plan);
         for _ in 0..2 {
             if res.is_ok() {
                 break;
             }
             std::thread::sleep(std::time::Duration::from_millis(300));
-            res = glue::session(plan, &cmds);
+            res = run(plan);
         }
         self.glue_sessions += 1;
         let so = match res {
@@ -693,13 +937,34 @@ impl Ctx {
             }
         };
         self.glue_commands += cmds.len() as u64;
-        let reported = match so.reported {
-            ColorDepth::EightBit => "8bit",
-            ColorDepth::Gray => "gray",
-            ColorDepth::TrueColor => "true",
-        };
-        self.out.hist(&format!("glue:{}:reports-{}", plan.name, reported));
-        self.glue = Some((plan.name.to_string(), reported.to_string()));
+        let reported_name = glue::depth_name(so.reported);
+        self.out.hist(&format!("glue:{}:reports-{}", plan.name, reported_name));
+        self.glue = Some((plan.name.to_string(), reported_name.to_string()));
+        // the depth the terminal is served with: what the user configured / what the terminal can show
+        let depth_ok = plan.allowed.is_empty() || plan.allowed.contains(&so.reported);
+        if !depth_ok {
+            let first = colours.first().cloned().unwrap_or([0, 0, 0]);
+            self.fail(
+                &format!("colour depth chosen by the terminal set-up does not fit the terminal ({})", plan.why),
+                json!({"depth": reported_name, "role": "setup", "r": first[0], "g": first[1], "b": first[2]}),
+                json!(plan.allowed.iter().map(|d| glue::depth_name(*d)).collect::<Vec<_>>()),
+                json!(reported_name),
+            );
+        }
+        // the true-colour probe: the colour the library sets and asks back must not be a palette colour,
+        // otherwise a 256-colour terminal that maps direct colours to its palette looks like a true-colour one
+        let mut probes = so.probes.clone();
+        probes.sort();
+        probes.dedup();
+        for pr in probes {
+            if self.probes_seen.insert(pr) {
+                self.out.oracle(&format!("c20 probe-in-palette {} {} {}", pr[0], pr[1], pr[2]), "outside");
+                self.out.corr(&format!("c20 probe {} {} {}", pr[0], pr[1], pr[2]), "probe");
+            }
+        }
+        // judged at the depth reported, or - if that depth does not fit the terminal - at the one that does
+        let so = glue::SessionOut { reported: if depth_ok { so.reported } else { plan.allowed[0] }, ..so };
+        let reported = glue::depth_name(so.reported);
         let n = colours.len() * 3;
         let mut canned = Enc::canned(so.segments[..n].to_vec());
         match so.reported {
@@ -757,9 +1022,9 @@ impl Ctx {
     /// the terminal-glue part: `rounds` sessions per plan with `n` colours each
     fn glue_part(&mut self, rng: &mut Rng, rounds: usize, n: usize, only: Option<(&str, Vec<[u8; 3]>)>) {
         if let Some((plan_name, colours)) = only {
-            for plan in glue::PLANS.iter().filter(|p| p.name == plan_name) {
+            for (idx, plan) in glue::plans().iter().enumerate().filter(|(_, p)| p.name == plan_name) {
                 let pairs: Vec<(usize, usize)> = (0..colours.len()).map(|i| (i, (i + 1) % colours.len())).collect();
-                self.glue_session(plan, &colours, &pairs);
+                self.glue_session(idx, plan, &colours, &pairs);
             }
             return;
         }
@@ -768,7 +1033,7 @@ impl Ctx {
             [0x7f, 0x7f, 0x7f], [0xd4, 0xd4, 0xd4], [0x2a, 0x2a, 0x30], [0x00, 0xb1, 0x00], [0xff, 0x00, 0x00], [0x5f, 0x87, 0xaf],
         ];
         for round in 0..rounds {
-            for plan in glue::PLANS.iter() {
+            for (idx, plan) in glue::plans().iter().enumerate() {
                 let mut colours: Vec<[u8; 3]> = if round == 0 { fixed.to_vec() } else { Vec::new() };
                 while colours.len() < n {
                     colours.push([rng.below(256) as u8, rng.below(256) as u8, rng.below(256) as u8]);
@@ -780,7 +1045,7 @@ impl Ctx {
                 }
                 let pairs: Vec<(usize, usize)> =
                     (0..colours.len()).map(|i| (i, rng.below(colours.len() as u64) as usize)).collect();
-                self.glue_session(plan, &colours, &pairs);
+                self.glue_session(idx, plan, &colours, &pairs);
             }
         }
     }
@@ -1349,6 +1614,14 @@ fn boundary_bytes(lin: &[f32], tab: &[f32], exact: &[f64]) -> Vec<u8> {
 }
 
 fn main() {
+    let args: Vec<String> = std::env::args().collect();
+    if args.len() >= 5 && args[1] == "glue-child" {
+        verif_harness::silence_panics();
+        glue::child_main(&args[2..], glue_cmds);
+        return;
+    }
+    // the override is read once per process: this process must not have one (sessions with it run in children)
+    unsafe { std::env::remove_var("SURFNTERM") };
     let cfg = Cfg::from_env();
     verif_harness::silence_panics();
     let t = Tables::read();
@@ -1394,6 +1667,7 @@ fn main() {
         drift,
         glue: None,
         glue_sessions: 0,
+        probes_seen: HashSet::new(),
         glue_inconclusive: 0,
         glue_commands: 0,
         n_colors: 0,
@@ -1569,7 +1843,7 @@ fn main() {
         "boundary_bytes_greys": bg,
         "thorough": ctx.thorough,
         "terminal_glue": {"sessions": ctx.glue_sessions, "inconclusive_sessions": ctx.glue_inconclusive, "commands": ctx.glue_commands,
-                          "plans": glue::PLANS.iter().map(|p| p.name).collect::<Vec<_>>()},
+                          "plans": glue::plans().iter().map(|p| p.name.clone()).collect::<Vec<_>>()},
     });
     ctx.out.extra("c20", extra);
     ctx.out.finish(
